@@ -76,7 +76,6 @@ func referenceSelfTest(run *sim.Run) {
 	run.Count("selftest:cavp-sha256-count0-ok", 1)
 }
 
-
 // ------------------------------------------------------------------------------------------
 
 func worldPool(run *sim.Run, n int) chan *sim.World {
@@ -142,13 +141,13 @@ func main() {
 		run.Finish()
 	}
 	if *only == "all" || *only == "pure" {
-		sim.Parallel(run.N(100_000, 4_000_000), 16, func(i int) { pureCase(run, i) })
+		sim.Parallel(run.N(100_000, 8_000_000), 16, func(i int) { pureCase(run, i) })
 	}
 	if *only == "all" || *only == "tss" {
-		runTSS(run, seq(run.N(6_000, 300_000)))
+		runTSS(run, seq(run.N(6_000, 400_000)))
 	}
 	if *only == "all" || *only == "chain" {
-		sim.Parallel(run.N(96, 3_000), 16, func(i int) { chainCase(run, i) })
+		sim.Parallel(run.N(64, 4_000), 16, func(i int) { chainCase(run, i) })
 	}
 
 	for _, c := range []string{
